@@ -6,6 +6,8 @@ import FFVerif.Pins.pinParseSpectrum
 import FFVerif.Pins.pinGetIndices
 #print axioms FFVerif.C20.parse_hamiltonian_valid_never_rejected
 #print axioms FFVerif.C20.parse_hamiltonian_rejects_iff
+#print axioms FFVerif.C20.parse_hamiltonian_rejected_invalid
+#print axioms FFVerif.C20.parse_args_rejected_invalid
 #print axioms FFVerif.C20.parse_hamiltonian_rejection_explained
 #print axioms FFVerif.C20.parse_hamiltonian_violation_invalid
 #print axioms FFVerif.C20.parse_hamiltonian_class_of_corruption
